@@ -191,6 +191,48 @@ TextRemapSeq(bytes) ==
 TextRemapSize(bytes) == Cardinality({bytes[i] : i \in 1..Len(bytes)})
 
 ---------------------------------------------------------------------------
+(* Bit structures whose positions do not fit TLC's integers: `base` zeros  *)
+(* (a number given as <<0, limbs base 2^24, most significant first>>)      *)
+(* followed by a short tail T.  Arguments and results are base + small     *)
+(* offset, so the clauses are those of T shifted by base; the arithmetic   *)
+(* on the limb lists is done here.                                         *)
+
+LIMB == 16777216
+\* base + delta for |delta| < 2^30; the most significant limb must stay positive
+RECURSIVE BigAddAt(_, _, _)
+BigAddAt(s, idx, delta) ==
+    IF delta = 0 \/ idx < 2 THEN s
+    ELSE LET t == s[idx] + delta
+             q == IF t >= 0 THEN t \div LIMB ELSE -((-t + LIMB - 1) \div LIMB)
+         IN  BigAddAt([s EXCEPT ![idx] = t - q * LIMB], idx - 1, q)
+BigAdd(base, delta) == BigAddAt(base, Len(base), delta)
+BigOk(base) == Len(base) >= 3 /\ base[1] = 0 /\ base[2] >= 128    \* at least 2^31, well formed
+SmallNum(v) == IF v = 0 THEN <<0>> ELSE IF v < LIMB THEN <<0, v>> ELSE <<0, v \div LIMB, v % LIMB>>
+
+\* rel = offset of the argument from base (may be negative: inside the leading zeros)
+BigGet(T, rel) ==
+    IF rel < 0 THEN Cl("get.in_zeros", {<<0>>})
+    ELSE IF rel < Len(T) THEN Cl("get.in", {SmallNum(T[rel + 1])})
+    ELSE Cl("get.out", {<<NONE>>})
+BigRank1(T, P1, rel) ==
+    IF rel > Len(T) THEN Cl("rank1.pos_out", {<<NONE>>})
+    ELSE Cl("rank1.gen", {SmallNum(IF rel <= 0 THEN 0 ELSE RankP(P1, rel))})
+BigRank0(base, T, P1, rel) ==
+    IF rel > Len(T) THEN Cl("rank0.pos_out", {<<NONE>>})
+    ELSE Cl("rank0.gen", {BigAdd(base, rel - (IF rel <= 0 THEN 0 ELSE RankP(P1, rel)))})
+\* k is an absolute (small) occurrence index
+BigSelect1(base, P1, k) ==
+    IF k >= Len(P1) THEN Cl("select1.missing", {<<NONE>>})
+    ELSE Cl("select1.gen", {BigAdd(base, SelectP(P1, k))})
+\* the k-th zero for a small absolute k lies in the leading zeros
+BigSelect0Abs(k) == Cl("select0.in_zeros", {SmallNum(k)})
+\* the (base + j)-th zero: in the leading zeros for j < 0, else the j-th zero of T
+BigSelect0Rel(base, P0, j) ==
+    IF j < 0 THEN Cl("select0.in_zeros", {BigAdd(base, j)})
+    ELSE IF j >= Len(P0) THEN Cl("select0.missing", {<<NONE>>})
+    ELSE Cl("select0.gen", {BigAdd(base, SelectP(P0, j))})
+
+---------------------------------------------------------------------------
 (* Kinds of values and the conversions between them (the type-state graph  *)
 (* of the library): which conversion methods a kind offers and the kind    *)
 (* of the result.  TraceLib's Conv action and the LibConv machine share    *)
